@@ -146,6 +146,7 @@ fn solve<S: Clone + PartialEq>(m: &Model, start: &Loc, fwd: bool, trans: &dyn Fn
     st
 }
 
+fn deep() -> bool { std::env::var("VERIF_TIER").map(|t| t == "thorough").unwrap_or(false) } // thorough tier: wider bounds
 fn main() {
     std::panic::set_hook(Box::new(|_| {}));
     let mut found = 0usize;
@@ -164,7 +165,7 @@ fn main() {
     }
     for nb in 1..=3usize {
         for shape in 0..3usize.pow(nb as u32) { for bits in 0u32..(1u32 << (nb * nb)) { for exit in 0..nb {
-            if nb == 3 && (shape + bits as usize + exit) % 2 != 0 { continue; }
+            if nb == 3 && !deep() && (shape + bits as usize + exit) % 2 != 0 { continue; }
             let mut cfg = ControlFlowGraph::new();
             let mut model = Model { blocks: vec![], edges: BTreeSet::new() };
             let mut s = shape;
@@ -210,6 +211,8 @@ fn main() {
             // non-monotone analyses: Ok only if no recomputed state was ever non-ascending (and then it is a solution);
             // an ordering error only if one was
             for variant in 0..6usize { for fwd in [true, false] {
+                // enough examples: on a broken engine every further oscillating run costs the full step budget
+                if per_op.get("non_monotone").cloned().unwrap_or(0) >= 12 { continue; }
                 evals += 1;
                 let log = Rc::new(RefCell::new(vec![]));
                 let a = CardAnalysis { variant, log: log.clone() };
